@@ -400,8 +400,11 @@ func cmdCheck(args []string) int {
 		}
 		// a ledger clause that is not discharged now is a violation
 		violations++
-		rp := writeReplay(prop, n, cr, v)
+		rp, reproduced := writeReplay(prop, n, cr, v)
 		suffix := " no-failing-input-found"
+		if reproduced {
+			suffix = " counterexample-replayed-on-real-code"
+		}
 		fmt.Printf("VIOLATION property=%s replay=%s obligation=%s%s\n", prop, rp, n, suffix)
 	}
 	for _, n := range order {
@@ -590,22 +593,66 @@ func readKnown(file, prop string) map[string]*KnownFinding {
 
 var unsafeName = regexp.MustCompile(`[^A-Za-z0-9_.-]+`)
 
-func writeReplay(prop, clause string, cr *ClauseResult, v *Verifier) string {
+func writeReplay(prop, clause string, cr *ClauseResult, v *Verifier) (string, bool) {
 	dir := filepath.Join(verifDir, "replays", prop)
 	os.MkdirAll(dir, 0o755)
 	file := filepath.Join(dir, unsafeName.ReplaceAllString(clause, "_")+".json")
 	rec := map[string]any{"property": prop, "obligation": clause, "reproduced": false}
+	reproduced := false
 	if cr == nil {
 		rec["reason"] = "the clause could not be generated: its target function, loop or contract no longer exists"
 	} else {
 		rec["verdict"] = cr.Verdict
 		rec["failed_subquery"] = cr.FailSub
 		rec["solver_output"] = cr.FailInfo
-		if cr.failed != nil && cr.failed.Res != nil {
-			rec["verdicts"] = cr.failed.Res.All
+		if o := cr.failed; o != nil && o.Res != nil {
+			rec["verdicts"] = o.Res.All
 			// re-run with models to capture a counterexample, if one exists
-			q := &Query{Name: clause, Hyps: dedupe(cr.failed.Hyps), Goal: cr.failed.Goal}
+			q := &Query{Name: clause, Hyps: dedupe(o.Hyps), Goal: o.Goal}
+			var names []string
+			var tmpl *Clause
+			if o.Spec != nil && o.Env != nil {
+				for _, c := range o.Spec.Clauses {
+					if c.Kind == "replay" {
+						tmpl = c
+					}
+				}
+			}
+			var hdr []string
+			if tmpl != nil {
+				// replay <pkg> <template> <TestName> : name = expr ; name = expr
+				parts := strings.SplitN(tmpl.Text, ":", 2)
+				hdr = strings.Fields(parts[0])
+				if len(parts) == 2 && len(hdr) == 3 {
+					func() {
+						defer func() {
+							if r := recover(); r != nil {
+								rec["replay_error"] = fmt.Sprint(r)
+								q.Values = nil
+								names = nil
+							}
+						}()
+						for _, b := range strings.Split(parts[1], ";") {
+							kv := strings.SplitN(b, "=", 2)
+							if len(kv) != 2 {
+								continue
+							}
+							ex, err := ParseSExpr(strings.TrimSpace(kv[1]))
+							if err != nil {
+								panic(err.Error())
+							}
+							val := o.Env.eval(ex)
+							if len(val.L) != 1 {
+								panic("replay expression is not scalar: " + kv[1])
+							}
+							names = append(names, strings.TrimSpace(kv[0]))
+							q.Values = append(q.Values, val.L[0])
+						}
+					}()
+				}
+			}
 			terms := append([]*Term(nil), q.Hyps...)
+			terms = append(terms, q.Values...)
 			if q.Goal != nil {
 				terms = append(terms, q.Goal)
 			}
@@ -613,12 +660,95 @@ func writeReplay(prop, clause string, cr *ClauseResult, v *Verifier) string {
 			res := Solve(q, 10, true)
 			if res.Verdict == "sat" {
 				rec["model"] = truncate(res.Output, 20000)
+				if len(names) > 0 {
+					vals := parseGetValue(res.Output, len(names))
+					if vals != nil {
+						subst := map[string]string{}
+						for i, n := range names {
+							subst[n] = vals[i]
+						}
+						rec["counterexample"] = subst
+						src, err := os.ReadFile(filepath.Join(verifDir, hdr[1]))
+						if err == nil {
+							text := string(src)
+							for n, val := range subst {
+								text = strings.ReplaceAll(text, "{{"+n+"}}", val)
+							}
+							gen := filepath.Join(dir, unsafeName.ReplaceAllString(clause, "_")+"_replay_test.go")
+							os.WriteFile(gen, []byte(text), 0o644)
+							w := &Witness{Kind: "go-test", Pkg: hdr[0], File: gen, Run: hdr[2]}
+							rep, out := runWitness(w)
+							reproduced = rep
+							rec["replay"] = map[string]any{"kind": "go-test", "source": gen, "output": out,
+								"cmd": fmt.Sprintf("cd %s && printf '{\"Replace\":{\"%s/zz_verif_witness_test.go\":\"%s\"}}' > /tmp/vgo-ov.json && GOFLAGS=-mod=mod GOPROXY=off go test -overlay /tmp/vgo-ov.json -vet=off -timeout 120s -count=1 -run '^%s$' %s",
+									repoDir, filepath.Join(repoDir, strings.TrimPrefix(hdr[0], "./")), gen, hdr[2], hdr[0])}
+						}
+					}
+				}
 			}
 		}
 	}
+	rec["reproduced"] = reproduced
 	data, _ := json.MarshalIndent(rec, "", " ")
 	os.WriteFile(file, append(data, '\n'), 0o644)
-	return file
+	return file, reproduced
+}
+
+// parseGetValue extracts the values of a (get-value ...) answer: ((t1 v1) (t2 v2) ...).
+func parseGetValue(out string, n int) []string {
+	i := strings.Index(out, "((")
+	if i < 0 {
+		return nil
+	}
+	s := out[i+1:]
+	var vals []string
+	for len(vals) < n {
+		// next pair "(term value)"
+		j := strings.Index(s, "(")
+		if j < 0 {
+			return nil
+		}
+		depth := 0
+		k := j
+		for ; k < len(s); k++ {
+			if s[k] == '(' {
+				depth++
+			} else if s[k] == ')' {
+				depth--
+				if depth == 0 {
+					break
+				}
+			}
+		}
+		pair := s[j+1 : k]
+		// value = last top-level s-expression of the pair
+		pair = strings.TrimSpace(pair)
+		var val string
+		if strings.HasSuffix(pair, ")") {
+			d := 0
+			m := len(pair) - 1
+			for ; m >= 0; m-- {
+				if pair[m] == ')' {
+					d++
+				} else if pair[m] == '(' {
+					d--
+					if d == 0 {
+						break
+					}
+				}
+			}
+			val = pair[m:]
+		} else {
+			val = pair[strings.LastIndexAny(pair, " \n\t")+1:]
+		}
+		val = strings.TrimSpace(val)
+		if strings.HasPrefix(val, "(-") {
+			val = "-" + strings.TrimSpace(strings.TrimSuffix(strings.TrimPrefix(val, "(-"), ")"))
+		}
+		vals = append(vals, val)
+		s = s[k+1:]
+	}
+	return vals
 }
 
 func truncate(s string, n int) string {
